@@ -1540,6 +1540,40 @@ def invalid_points(ctx, c, full):
                 _fail(ctx, "invalid-point-accepted", dict(cur, op="invalid", kind="other-curve-key:" + o.name, x=None, y=None),
                       "ECDH.load_received_public_key accepted a key of " + o.name)
             break
+    # point OBJECTS that live on another curve object (a multiple of the other curve's generator, Jacobi and affine):
+    # loaded as a public key for THIS curve they must be refused - the point is judged against the curve it is loaded
+    # for, not the one it carries
+    for o in shipped():
+        if o is c or o.curve.p() == c.curve.p():
+            continue
+        oq = o.generator * r.randrange(2, int(o.order))
+        ox, oy = int(oq.x()), int(oq.y())
+        if (oy * oy - (ox ** 3 + a * ox + b)) % p == 0 and 0 <= ox < p and 0 <= oy < p:
+            continue
+        acc = []
+        ctx.case(("invalid-object", c.name, o.name, ox))
+        for nm, pt in (("PointJacobi", oq), ("Point", oq.to_affine())):
+            if not rejected(ecdsa_mod.Public_key, c.generator, pt):
+                acc.append("Public_key(%s of %s)" % (nm, o.name))
+            if not rejected(keys.VerifyingKey.from_public_point, pt, c):
+                acc.append("VerifyingKey.from_public_point(%s of %s)" % (nm, o.name))
+        if acc:
+            _fail(ctx, "invalid-point-accepted", dict(cur, op="invalid-object", kind="other-curve-object:" + o.name, x=ox, y=oy, other=o.name),
+                  "accepted by " + ", ".join(acc))
+        if not full:
+            break
+    # point_is_valid with coordinates outside 0..p-1 that are congruent to a real point (negative and >= p)
+    Pv = a_mul(r.randrange(1, n), G, p, a)
+    for nm, (x, y) in (("x-p", (Pv[0] - p, Pv[1])), ("y-p", (Pv[0], Pv[1] - p)), ("x+p", (Pv[0] + p, Pv[1])), ("y+p", (Pv[0], Pv[1] + p)),
+                       ("-1", (-1, Pv[1])), ("both-p", (Pv[0] - p, Pv[1] - p))):
+        ctx.case(("invalid-range", c.name, nm, x, y))
+        try:
+            ok = ecdsa_mod.point_is_valid(c.generator, x, y)
+        except Exception as ex:   # noqa
+            ok = "raised %s" % type(ex).__name__
+        if ok is not False:
+            _fail(ctx, "invalid-point-accepted", dict(cur, op="invalid-range", kind="out-of-range:" + nm, x=x, y=y),
+                  "ecdsa.point_is_valid answered %r for a coordinate outside 0..p-1" % (ok,))
 
 
 def _raw_point(ec, curve, x, y):
@@ -2150,6 +2184,22 @@ def replay(ctx, data):
                     acc3 = True
                 print("  from_string accepted:", acc, " Public_key accepted:", acc2, " point_is_valid:", acc3, " (must all be False)")
                 rc |= acc or acc2 or acc3
+            elif op == "invalid-range":
+                try:
+                    ok = ecdsa_mod.point_is_valid(c.generator, d["x"], d["y"])
+                except Exception as ex:   # noqa
+                    ok = "raised %s" % type(ex).__name__
+                print("  point_is_valid for coordinates outside 0..p-1:", ok, " (must be False)")
+                rc |= ok is not False
+            elif op == "invalid-object":
+                o = [k for k in shipped() if k.name == d["other"]][0]
+                got = []
+                for k in range(2, 40):
+                    oq = o.generator * k
+                    got.append(not rejected(ecdsa_mod.Public_key, c.generator, oq) or
+                               not rejected(keys.VerifyingKey.from_public_point, oq, c))
+                print("  multiples 2..39 of the generator of %s accepted as public keys of %s: %d (must be 0)" % (o.name, c.name, sum(got)))
+                rc |= any(got)
             elif op == "valid":
                 try:
                     ok = ecdsa_mod.point_is_valid(c.generator, d["x"], d["y"])
